@@ -6,6 +6,7 @@ import (
 	"os"
 
 	"olverif/internal/boxcli"
+	"olverif/internal/drive"
 	"olverif/internal/proto"
 	"olverif/internal/txb"
 	"olverif/internal/world"
@@ -16,7 +17,16 @@ func main() {
 		smoke()
 		return
 	}
-	fmt.Println("usage: olmon smoke")
+	if len(os.Args) > 1 && os.Args[1] == "try" {
+		try(os.Args[2:])
+		return
+	}
+	if len(os.Args) > 3 && os.Args[1] == "check" {
+		code := runCheck(os.Args[2], os.Args[3])
+		drive.Cleanup()
+		os.Exit(code)
+	}
+	fmt.Println("usage: olmon smoke|try|check <Cxx> <quick|thorough>")
 	os.Exit(2)
 }
 
@@ -85,4 +95,13 @@ func smoke() {
 	r, _ = b.Block(&proto.Recipe{DtMs: 5000, Dump: true})
 	pr(r)
 	b.Quit()
+}
+
+func runCheck(id, tier string) int {
+	switch id {
+	case "C01":
+		return checkC01(tier)
+	}
+	fmt.Println("unknown check", id)
+	return 2
 }
